@@ -92,7 +92,8 @@ KEEP = {
 
 def text_tokens(spec):
     return [t for n, t, c in spec.get("details", []) if c in ("text", "text-split", "shared")] + [
-        t.swapcase() for n, t, c in spec.get("details", []) if c == "override"]
+        t.swapcase() for n, t, c in spec.get("details", []) if c == "override"] + [
+        H.lines_text(t) for n, t, c in spec.get("details", []) if c == "text-lines"]
 
 
 def check_payload(ctx, flavour, spec, ev, detail):
@@ -208,6 +209,13 @@ def x_case(ctx, case):
                     got_aux.append(("time", H.TIMES.index(e.payload["time"])))
             ctx.check(got_aux == want_aux, "leaf.tags-and-time-forwarded",
                       lambda: {"got": got_aux, "want": want_aux, **detail()})
+            # progress(offset, whence): every adapter on the way here that has it forwards it as given (a
+            # MultiTestResult has no progress() - such stacks never get the call, see H.supports)
+            want_p = [(op[1], op[2]) for op in history if op[0] == "progress"]
+            got_p = [(e.payload["offset"], e.payload["whence"]) for e in log.events if e.name == "progress"]
+            if (want_p or got_p) and not any(step[0] in ("Multi", "TBT") for step in path):
+                ctx.check(got_p == want_p, "leaf.tags-and-time-forwarded",
+                          lambda: {"progress calls received": got_p, "issued": want_p, **detail()})
     # ---- TestByTestResult -----------------------------------------------------------------------
     for k, (path, calls) in enumerate(built.tbt):
         evs = through(path, events)
@@ -356,7 +364,46 @@ def x_tbt_reentrant(ctx, case):
     return True
 
 
-SUBCHECKS = {"case": x_case, "holder": x_holder, "tbt_reentrant": x_tbt_reentrant}
+def x_tbt_nostart(ctx, case):
+    """The startTest-less addSkip + stopTest pair (what unittest in Python 3.12.1 emits for a skipped stdlib test)
+    arriving at a TestByTestResult after an ordinary test: the callback carries THAT test's times - its start is
+    unknown (None) - not the previous test's start."""
+    import datetime
+    import testtools
+    UTC = datetime.timezone.utc
+    T = [datetime.datetime(2023, 5, 5, 12, 0, k, tzinfo=UTC) for k in range(6)]
+    calls = []
+    tbt = testtools.TestByTestResult(lambda **kw: calls.append((kw["test"].id(), kw["status"], kw["start_time"], kw["stop_time"])))
+    top = {"tbt": lambda: tbt, "e2o": lambda: testtools.ExtendedToOriginalDecorator(tbt),
+           "multi": lambda: testtools.MultiTestResult(tbt), "tagger": lambda: testtools.Tagger(tbt, {"t"}, set())}[case["stack"]]()
+    top.startTestRun()
+    a, b, c = (testtools.PlaceHolder(n) for n in ("a", "b", "c"))
+    want = []
+    for k in range(case["before"]):
+        top.time(T[0])
+        top.startTest(a)
+        top.time(T[1])
+        top.addSuccess(a)
+        top.stopTest(a)
+        want.append(("a", "success", T[0], T[1]))
+    top.time(T[3])
+    top.addSkip(b, "not on this platform")
+    top.stopTest(b)
+    want.append(("b", "skip", None, T[3]))        # no start was reported: unknown - never an earlier test's
+    if case["after"]:
+        top.time(T[4])
+        top.startTest(c)
+        top.time(T[5])
+        top.addSuccess(c)
+        top.stopTest(c)
+        want.append(("c", "success", T[4], T[5]))
+    top.stopTestRun()
+    ctx.check(calls == want, "tbt.callback-fields", lambda: {"calls": [tuple(map(str, x)) for x in calls],
+                                                             "want": [tuple(map(str, x)) for x in want], "case": case})
+    return True
+
+
+SUBCHECKS = {"case": x_case, "holder": x_holder, "tbt_reentrant": x_tbt_reentrant, "tbt_nostart": x_tbt_nostart}
 
 
 def single_test_histories():
@@ -428,6 +475,11 @@ def run(ctx):
                     ctx.execute("holder", {"stack": s, "stale_traceback": stale, "extra": extra})
     ctx.note_space("%d stacks of depth <= 2 x an ErrorHolder with / without a stale 'traceback' detail and another "
                    "detail" % len(upto2), n)
+    for stack in ("tbt", "e2o", "multi", "tagger"):
+        for before in (0, 1, 2):
+            for after in (False, True):
+                if ctx.mine():
+                    ctx.execute("tbt_nostart", {"stack": stack, "before": before, "after": after})
     for run_tags in ([], ["r"]):
         for retry_on in (["failure"], ["failure", "error"], []):
             for tests in ([["addFailure", ["l1"]], ["addSuccess", []]], [["addSuccess", ["a"]], ["addError", ["b", "c"]]],
